@@ -4,7 +4,7 @@ import sys
 
 from harness import common, diffexec, gen_scope, hostrun, lowercorr, propkit, sexp
 
-VFILES = ["theories/Namespace.v", "theories/Lower.v", "theories/Scope.v"]
+VFILES = ["theories/Namespace.v", "theories/Lower.v", "theories/Scope.v", "theories/ScopeTree.v"]
 
 # CPython 3.12/3.13 (PEP 709) compile a comprehension into the enclosing function; when that function is a lambda that
 # also READS a free variable with the name of the comprehension's target (in a second comprehension or a nested lambda)
